@@ -44,6 +44,8 @@ func main() {
 		os.Exit(cmdWorker(os.Args[2:]))
 	case "replay":
 		os.Exit(cmdReplay(os.Args[2:]))
+	case "c10oneshot":
+		props.C10OneShot(os.Args[2])
 	case "c09digest":
 		sh, _ := strconv.Atoi(os.Args[2])
 		of, _ := strconv.Atoi(os.Args[3])
